@@ -231,5 +231,52 @@ def multichain(rng, nchains=None, ter="TER   \n", oxt_prob=0.5, chains="ABCDEFG 
     return renumber_serials(out), ids
 
 
+def graft_sidechain(rng, res_lines, new_res):
+    """point mutant: the residue keeps its backbone and CB and gets the side chain (beyond CB) of a library residue of type
+    `new_res`, translated so that the CB atoms coincide; residue name changed throughout.  None if impossible."""
+    lib = library()
+    cands = [it for k in sorted(lib) if k[1] != "het" for it in lib[k] if it[1][3] == new_res and any(l[12:16].strip() == "CB" for l in it[2])]
+    cb = [l for l in res_lines if l[12:16].strip() == "CB"]
+    if not cands or not cb:
+        return None
+    src = cands[rng.randrange(len(cands))][2]
+    scb = [l for l in src if l[12:16].strip() == "CB"][0]
+    (x0, y0, z0), (x1, y1, z1) = coords(scb), coords(cb[0])
+    out = [setcols(l, 17, 20, new_res) for l in res_lines if l[12:16].strip() in ("N", "CA", "C", "O", "CB", "OXT")]
+    for l in src:
+        if l[12:16].strip() in ("N", "CA", "C", "O", "CB", "OXT") or l[16] not in " A":
+            continue
+        x, y, z = coords(l)
+        g = set_coords(l, round(x - x0 + x1, 3), round(y - y0 + y1, 3), round(z - z0 + z1, 3))
+        g = setcols(setcols(setcols(setcols(g, 21, 22, cb[0][21]), 22, 27, cb[0][22:27]), 16, 17, cb[0][16]), 0, 6, "ATOM  ")
+        out.append(g)
+    return out
+
+
+def altloc_atoms(rng, lines, n=1):
+    """the same structure with `n` side-chain atoms given two alternate locations 0.4 A apart: two conformations"""
+    idx = [i for i, l in enumerate(lines) if l.startswith("ATOM") and l[16] == " " and l[12:16].strip() not in ("N", "CA", "C", "O", "OXT")]
+    out = list(lines)
+    for i in sorted(rng.sample(idx, min(n, len(idx))), reverse=True):
+        x, y, z = coords(lines[i])
+        out[i:i + 1] = [setcols(lines[i], 16, 17, "A"), set_coords(setcols(lines[i], 16, 17, "B"), round(x + 0.3, 3), round(y - 0.2, 3), round(z + 0.15, 3))]
+    return out
+
+
+SIDE_CHAIN_ENDS = {"ASP": ("OD1", "OD2"), "GLU": ("OE1", "OE2"), "HIS": ("ND1", "NE2", "CD2", "CE1"), "TYR": ("OH",),
+                   "ARG": ("NE", "NH1", "NH2"), "SER": ("OG",), "THR": ("OG1",), "ASN": ("OD1", "ND2"), "GLN": ("OE1", "NE2"),
+                   "TRP": ("NE1",)}
+
+
+def truncate_sidechains(rng, lines, n=1):
+    """incomplete residues as found in low-resolution structures: the hetero atoms at the end of up to `n` side chains are
+    missing (an ASP keeps CG but has no OD1/OD2, a HIS stops at CG, ...)"""
+    keys = sorted({res_key(l) for l in lines if is_atom(l) and l[17:20] in SIDE_CHAIN_ENDS})
+    if not keys:
+        return lines
+    chosen = set(rng.sample(keys, min(n, len(keys))))
+    return [l for l in lines if not (is_atom(l) and res_key(l) in chosen and l[12:16].strip() in SIDE_CHAIN_ENDS[l[17:20]])]
+
+
 def text(lines):
     return "".join(lines)
